@@ -8,6 +8,7 @@ From Coq Require Import List NArith ZArith Bool Lia.
 From Verif Require Import Common.Util Common.GoInt Sched.Model Sched.Proofs Gen.GasLimit GenProofs.GasLimitProofs BaseFee.Model
      Header.Rules Header.Proofs Validation.Body Validation.Catalogue Validation.ProofsRules Validation.ProofsPacker
      Validation.Cache Validation.ProofsCache Validation.ExamplesCache.
+From Verif Require TxExec.Model TxExec.Proofs Compose.ExecSane.
 Import ListNotations.
 Open Scope N_scope.
 
@@ -300,3 +301,59 @@ Print Assumptions pos_score_at_least_one.
 Print Assumptions pos_galactica_packed_block_accepted.
 Print Assumptions pos_score_zero_block_rejected.
 Print Assumptions cache_hypotheses_hold_on_a_history.
+
+(* ================================================================ composition *)
+(* C01 <-> C07 (Compose/ExecSane.v).  The abstract `exec` of theorem 2 instantiated with C07's model of the transaction
+   wrapper (TxExec.Model.exec_tx: ResolveTransaction / PrepareTransaction / ExecuteTransaction over a clause oracle), the
+   fields C01's transaction view shares with C07's record being taken from the view (ExecSane.full, ExecSane.env_of).
+   exec_sane then FOLLOWS from C07's gas_bounds, and theorem 2 holds with that premise removed; what is left assumed about
+   execution is C07's single assumption on the EVM (oracle_ok: a clause hands back at most the gas it was given). *)
+Section Composition.
+  Variables W O : Type.
+  Variable clause_result : TxExec.Model.env -> TxExec.Model.txn -> nat -> Z -> TxExec.Model.state W -> TxExec.Model.cres W O.
+  Variable write_credit : Z -> Z -> Z -> W -> W.
+  Variable tx_rest : txn -> TxExec.Model.txn.
+  Variable env_rest : bctx -> TxExec.Model.state W -> TxExec.Model.env.
+  Variable credit_of : bctx -> TxExec.Model.state W -> txn -> TxExec.Model.credit_info.
+  Variable digest : TxExec.Model.receipt O -> N.
+  Notation exec_c07 := (ExecSane.exec_of_c07 W O clause_result write_credit tx_rest env_rest credit_of digest).
+
+  (* 6. exec_sane for C07's wrapper *)
+  Theorem exec_sane_from_c07 : TxExec.Proofs.oracle_ok W O clause_result -> exec_sane (TxExec.Model.state W) exec_c07.
+  Proof. exact (ExecSane.exec_of_c07_sane W O clause_result write_credit tx_rest env_rest credit_of digest). Qed.
+
+  Variable apply_updates : bool -> N -> TxExec.Model.state W -> list (N * bool) -> TxExec.Model.state W.
+  Variable rewards : bctx -> TxExec.Model.state W -> option (TxExec.Model.state W).
+  Variable sanity : TxExec.Model.state W -> bool.
+  Variable root_of_state : TxExec.Model.state W -> N.
+  Variable root_of_receipts : list receipt -> N.
+  Variable root_of_txs : list txn -> N.
+  Variable has_tx : N -> N -> bool.
+  Variable find_meta : N -> option bool.
+
+  (* 7. theorem 2 without the premise exec_sane *)
+  Theorem packed_block_accepted_c07 cfg pv parent po now st0 txs vote sr b stp rcs vnow :
+    TxExec.Proofs.oracle_ok W O clause_result ->
+    ExecSane.premises_rest cfg pv parent po -> crypto_roundtrip cfg parent po sr ->
+    pack_block (TxExec.Model.state W) exec_c07 apply_updates rewards root_of_state root_of_receipts root_of_txs has_tx find_meta
+               cfg pv parent po now st0 txs vote sr = Some (b, stp, rcs) ->
+    h_total_score parent < h_total_score (b_header b) ->
+    (pv_pos pv = true -> forall ctx stf, rewards ctx stf = Some stp -> sanity stf = true) ->
+    h_time (b_header b) <= vnow + c_interval cfg ->
+    process (TxExec.Model.state W) exec_c07 apply_updates rewards sanity root_of_state root_of_receipts root_of_txs has_tx find_meta
+            cfg pv parent st0 b vnow = Accepted (TxExec.Model.state W) stp rcs.
+  Proof. exact (ExecSane.packed_block_accepted_c07 W O clause_result write_credit tx_rest env_rest credit_of digest apply_updates rewards sanity root_of_state root_of_receipts root_of_txs has_tx find_meta cfg pv parent po now st0 txs vote sr b stp rcs vnow). Qed.
+End Composition.
+
+(* non-vacuity of 7: C07's example oracle inside the packer; one transaction adopted (gas used 169921 of 200000), one refused by
+   the pre-checks, one by ResolveTransaction (gas below intrinsic gas); the validator accepts by theorem 7 *)
+Example packed_block_accepted_c07_example :
+  exists b stp rcs,
+    ExecSane.x_pack = Some (b, stp, rcs) /\ map t_id (b_txs b) = [9001] /\ map r_gas rcs = [169921] /\ snd stp = 2%Z /\
+    h_gas_used (b_header b) = 169921 /\
+    ExecSane.x_process b 1020 = Accepted (TxExec.Model.state Z) stp rcs.
+Proof. exact ExecSane.x_packed_and_accepted. Qed.
+
+Print Assumptions exec_sane_from_c07.
+Print Assumptions packed_block_accepted_c07.
+Print Assumptions packed_block_accepted_c07_example.
